@@ -233,7 +233,8 @@ class Unkeyed(Job):
         for d in xfer(t):
             try:
                 list(pr.add_and_unframe(d))
-            except Exception:
+            except Exception as e:
+                core.check_leak(e)
                 # a peer holding another key cannot validate our handshake; it answers with its own anyway
                 pr._framer._can_send_frames = True
                 pr._send_handshake()
@@ -274,7 +275,8 @@ class Unkeyed(Job):
                     p.dataReceived(ch)
                 except (core.Escape, core.Inconclusive, core._Abort, core.Counterexample):
                     raise
-                except Exception:
+                except Exception as e:
+                    core.check_leak(e)
                     # Twisted's reactor logs an exception escaping dataReceived and drops the connection
                     t.lost += 1
                 if t.lost:
@@ -348,6 +350,90 @@ class Unkeyed(Job):
         return None
 
 
+class SelectOrder(Job):
+    """records that arrive behind the KCM - before or after the Connector's select(), in any two-chunk split of the byte stream - reach the
+    manager exactly as sent and in order (the queue between KCM and select() is part of the L2 path)"""
+    functions = ["_dilation.connection.DilatedConnectionProtocol.dataReceived/got_kcm/select/got_record/queue_inbound_record/process_inbound_queue/deliver_record",
+                 "_Record.add_and_unframe", "_Framer.add_and_parse"]
+    must_reach = ("nt:in-order",)
+
+    def __init__(self, role):
+        self.role = role
+        self.samekey, self.cut = True, None
+        self.name = "select_order_%s" % ("leader" if role is LEADER else "follower")
+        self.bounds = dict(records=4, select_point="after any number of post-KCM records (solver-chosen)", chunking="whole, or split in two at any byte (solver-chosen)")
+
+    build = Unkeyed.build
+    honest_frames = Unkeyed.honest_frames
+    RECS = None
+
+    def run(self, sel_after, cut):
+        recs = [CX.Open(1, 7, "proto"), CX.Data(2, 7, b"payload"), CX.Ping(b"\x01\x02\x03\x04"), CX.Close(3, 7)]
+        w = N.World(concrete=True)
+        p, t, conn, eq, pr, pt = self.build(w)
+        mgr = MgrRec()
+        prologue, frames = self.honest_frames(p, t, pr, pt)
+        pr._framer._can_send_frames = True
+        pr.send_record(CX.KCM())
+        head = b"".join(bytes(x) for x in [prologue] + frames + xfer(pt))
+        p.dataReceived(head)
+        if not conn.cands:
+            return "honest handshake+KCM not accepted"
+        per = []
+        for r in recs:
+            pr.send_record(r)
+            per.append(b"".join(bytes(x) for x in xfer(pt)))
+        # deliver the first sel_after records, select, deliver the rest; the whole post-KCM stream is split once at `cut`
+        stream = b"".join(per)
+        bound = sum(len(x) for x in per[:sel_after])
+        pieces = []
+        for lo, hi in ((0, bound), (bound, len(stream))):
+            seg = stream[lo:hi]
+            if cut is not None and lo < cut < hi:
+                pieces.append((lo, [seg[:cut - lo], seg[cut - lo:]]))
+            else:
+                pieces.append((lo, [seg] if seg else []))
+        for ch in pieces[0][1]:
+            p.dataReceived(ch)
+        p.select(mgr)
+        eq.flush_sync()
+        for ch in pieces[1][1]:
+            p.dataReceived(ch)
+        eq.flush_sync()
+        if t.lost:
+            return "honest stream dropped the connection"
+        if mgr.recs != recs:
+            return "manager received %r, peer sent %r (select after %d records, cut %r)" % (mgr.recs, recs, sel_after, cut)
+        return None
+
+    def scenario(self):
+        sel = eng().choose(5, "select_after")
+        # total post-KCM stream length is fixed by the records; find it once
+        c = eng().choose(2, "split")
+        cut = None
+        if c:
+            cut = 1 + eng().choose(120, "cut")
+        eng().inputs.update(select_after=sel, cut=-1 if cut is None else cut)
+        with loader.shadow((CX, "log", _Log())):
+            v = self.run(sel, cut)
+        check(v is None, "records behind the KCM: %s" % v)
+        eng().note("nt:in-order")
+
+    def key(self, inp, label):
+        return "records behind the KCM not delivered to the manager as sent"
+
+    def replay(self, inp, label):
+        return self.run(inp["select_after"], None if inp["cut"] < 0 else inp["cut"])
+
+
+class _Log:
+    def msg(self, *a, **k):
+        pass
+
+    def err(self, *a, **k):
+        pass
+
+
 def jobs(tier):
     thorough = tier == "thorough"
     J = [MultiPacket(4 * MAXP + 9)]
@@ -356,4 +442,5 @@ def jobs(tier):
         for samekey in (True, False):
             for cut in (cuts if samekey else [None]):
                 J.append(Unkeyed(role, samekey, cut))
+    J += [SelectOrder(LEADER), SelectOrder(FOLLOWER)]
     return J
